@@ -204,14 +204,18 @@ func (g *Gen) construct() (Op, bool) {
 // faultTargets: nodes currently registered that have a user function.
 func (g *Gen) fnNodes() (fns []int, cuts []int) {
 	for id, ref := range g.E.Nodes {
+		if ref != nil && ref.Kind == "Sentinel" {
+			// a sentinel is registered with the graph as a sentinel (Graph.Has does not know it); its
+			// function runs in every pass once the node it watches is in the graph
+			if g.P.Sentinels > 0 && g.P.WFaultPass > 0 && ref.Watched >= 0 && g.E.Registered(ref.Watched) {
+				fns = append(fns, id)
+			}
+			continue
+		}
 		if ref == nil || !g.E.Registered(id) {
 			continue
 		}
 		switch ref.Kind {
-		case "Sentinel":
-			if g.P.Sentinels > 0 && g.P.WFaultPass > 0 && ref.Watched >= 0 {
-				fns = append(fns, id)
-			}
 		case "Map", "Map2", "MapN", "BindLhs":
 			fns = append(fns, id)
 		case "Cutoff":
